@@ -12,7 +12,6 @@ package main
 
 import (
 	"bytes"
-	"sync/atomic"
 	"encoding/binary"
 	"encoding/json"
 	"fmt"
@@ -21,6 +20,7 @@ import (
 	"strconv"
 	"strings"
 	"sync"
+	"sync/atomic"
 	"time"
 
 	"verifmc/internal/ev"
@@ -29,6 +29,15 @@ import (
 func envInt(k string) int {
 	n, _ := strconv.Atoi(os.Getenv(k))
 	return n
+}
+
+// selftestCrash lets the supervisor's crash handling be exercised: C32_SELFTEST_CRASH=<case index> makes the worker
+// executing that case die the way an unrecovered panic in a library goroutine would.
+func selftestCrash(j job) {
+	if v := os.Getenv("C32_SELFTEST_CRASH"); v != "" && strconv.Itoa(j.idx) == v {
+		go func() { panic("C32 self-test: deliberate crash in a goroutine nobody recovers") }()
+		time.Sleep(2 * time.Second)
+	}
 }
 
 // workerMain: C32_WORKER = "share:<w>/<W>" | "one:<index>" | "replay:<file>"
@@ -97,6 +106,7 @@ func workerMain(spec string) {
 		jobs, _ := buildJobs(thorough, func(i int) bool { return i == want })
 		for _, j := range jobs {
 			mark(j.idx)
+			selftestCrash(j)
 			res.record(j, runJob(j))
 		}
 		finish()
@@ -143,6 +153,7 @@ func workerMain(spec string) {
 					}
 					j := jobs[n]
 					markSlot(g, j.idx)
+					selftestCrash(j)
 					jo, ok := exec(j, 20*time.Second)
 					if !ok {
 						mu.Lock()
@@ -240,6 +251,7 @@ func crashClass(se string) (cls string, excerpt string) {
 	for _, l := range strings.Split(body, "\n") {
 		if i := strings.Index(l, "github.com/zmap/zcrypto/"); i >= 0 && !strings.HasPrefix(strings.TrimSpace(l), "/") {
 			site = strings.TrimPrefix(l[i:], "github.com/zmap/zcrypto/")
+			site, _, _ = strings.Cut(site, " in goroutine")
 			if j := strings.IndexByte(site, '('); j > 0 && strings.HasSuffix(site, ")") {
 				// keep "tls.(*Conn).readRecord" and drop the argument list
 				if k := strings.LastIndex(site, "("); k > 0 {
@@ -252,14 +264,17 @@ func crashClass(se string) (cls string, excerpt string) {
 	if len(body) > 6000 {
 		body = body[:6000]
 	}
+	if site == "" {
+		return ev.MsgClass(first), body
+	}
 	return ev.MsgClass(first) + " @ " + site, body
 }
 
 func supervise(c *ev.Ctx) {
 	thorough := !c.Quick()
-	c.Rule("(1) wire faults — for each configuration the baseline transcript of real client<->real server (handshake + data phase), then EVERY fault of the menu {xor 01/80, set 00/ff at each offset (quick: every offset in the first 96 / last 24 bytes of each record, stride 5 elsewhere), truncate, drop/dup/swap record, 13 inserted records at every boundary, record length/type/version values, handshake type/length values, record split/coalesce, read segmentation} as a single fault. " +
-		"(2) keyed faults — for each keyed configuration every PROTECTED record of the baseline (TLS 1.3: EncryptedExtensions, CertificateRequest, Certificate, CertificateVerify, Finished, NewSessionTicket, client Certificate/CertificateVerify/Finished, data, alerts; TLS<=1.2: both Finished, data, alerts) is opened in flight with the KeyLogWriter secrets, edited in plaintext and re-sealed under the receiver's keys and sequence number: drop, duplicate, swap/coalesce with the next record, fragmentation (quick 7 offsets, thorough every offset), other content types, unprotected delivery, TLS 1.3 padding/outer type, a handshake message of each of 24 types (empty / tiny) in front; per message: every body truncation with fixed-up and with stale header length, 8 header length values, every inner length field {0,1,-1,+1,max}, every body byte through {00,01,7f,80,ff,^01,^80}, the body under each other handshake type (quick: every offset of bodies <=40 bytes, else first 8/last 4, all bytes of and around length fields, stride 6; thorough: every offset); in front of data-phase records: KeyUpdate with every request byte 0..255 (+ empty, long, fragmented, coalesced, x15/16/17/33), NewSessionTicket variants, HelloRequest / ClientHello / ServerHello as renegotiation attempts, all 24 handshake types, alert level x description grid, empty and 16384/16385-byte fragments of every content type, 64 KiB handshake messages, unprotected records (quick: full menu at the first data record of each direction, reduced menu at the last; thorough: full menu at every data record). " +
-		"(3) raw peers — every 0,1,2-byte stream and 6^5 record headers x 4 tails against each role, and for every configuration every record-boundary prefix of the peer's genuine stream followed by each of 70 inserts and EOF. (4) SSLv3-only / SSLv3-allowed configurations. " +
+	c.Rule("(1) wire faults — for each of 11 (thorough 20) configurations (TLS 1.0-1.3, RSA/ECDHE/DHE, client auth, resumption, zcrypto scan extras, ExternalClientHello, ClientFingerprintConfiguration+CertsOnly) the baseline transcript of real client<->real server (handshake + data phase), then EVERY fault of the menu {xor 01/80, set 00/ff at each offset (quick: every offset in the first 96 / last 24 bytes of each record, stride 5 elsewhere; coarser on the server flight of the two ClientHello-construction configurations), truncate, drop/dup/swap record, 13 inserted records at every boundary, record length/type/version values, handshake type/length values, record split/coalesce, read segmentation} as a single fault. " +
+		"(2) keyed faults — for each of 8 (thorough 16) keyed configurations (TLS 1.3 with each of its 3 suites incl. client auth, PSK resumption, tickets, ALPN/OCSP/SCT; TLS 1.0-1.2 with GCM, ChaCha20, CBC implicit/explicit IV, 3DES, RC4, renegotiation allowed) every PROTECTED record of the baseline (TLS 1.3: EncryptedExtensions, CertificateRequest, Certificate, CertificateVerify, Finished, NewSessionTicket, client Certificate/CertificateVerify/Finished, data, alerts; TLS<=1.2: both Finished, data, alerts) is opened in flight with the KeyLogWriter secrets, edited in plaintext and re-sealed under the receiver's keys and sequence number: drop, duplicate, swap/coalesce with the next record, fragmentation (quick 7 offsets, thorough every offset), other content types, unprotected delivery, delivery then close, TLS 1.3 padding/outer type, a handshake message of each of 24 types (empty / tiny) in front; per message: every body truncation with fixed-up and with stale header length (and stale + close), 8 header length values, trailing bytes, every inner length field {0,1,-1,+1,max}, every inner vector emptied / shortened / extended with all enclosing lengths adjusted, every body byte through {00,01,7f,80,ff,^01,^80}, the body under each other handshake type (quick: every offset of bodies <=40 bytes, else first 8/last 4, all bytes of and around length fields, stride 6; thorough: every offset); in front of data-phase records: KeyUpdate with every request byte 0..255 (+ empty, long, fragmented, coalesced, x15/16/17/33), NewSessionTicket variants, HelloRequest / ClientHello / ServerHello as renegotiation attempts, all 24 handshake types, alert level x description grid, empty and 16384/16385-byte fragments of every content type, 64 KiB handshake messages, unprotected records (quick: in front of the first data record of each direction, full menu in 3 configurations and a covering slice in the others; thorough: full menu at every data record). " +
+		"(3) raw peers — every 0,1,2-byte stream and 6^5 record headers x 4 tails against each role, and for every non-resuming configuration every record-boundary prefix of the peer's genuine stream (protected records included: the endpoints are deterministic) followed by each of 70 inserts and EOF, all sent at once. (4) SSLv3: client-only / server-only / both / SSLv3..TLS1.0 configurations and a raw SSLv3 ClientHello + 70 inserts against a server allowing SSLv3. " +
 		"A case is non-trivial when the fault was reached by the stream; distinct = distinct (config,fault). For (2) the edited record must authenticate at the receiver for at least one case of every (configuration, message) class, else the run is CHECK-BROKEN.")
 	c.Assume("transport blocking is detected structurally (both endpoints parked in Read with nothing in flight => transport closes both directions)",
 		"a 20 s wall-clock net only marks suspects, which are re-run 3x sequentially before being reported",
@@ -342,6 +357,9 @@ func supervise(c *ev.Ctx) {
 	}
 
 	_, m := buildJobs(thorough, nil)
+	for _, v := range m.BaselineViol {
+		c.Violation(v.Sig, v.Witness)
+	}
 	if m.Broken != "" {
 		c.Broken("%s", m.Broken)
 	}
